@@ -19,7 +19,44 @@ from typing import Any, Dict, List, Optional, Sequence, Tuple
 logging.disable(logging.CRITICAL)
 
 from mysql_mimic import MysqlServer, Session  # noqa: E402
-from mysql_mimic.types import Capabilities as C  # noqa: E402
+import enum as _enum  # noqa: E402
+
+
+class C(_enum.IntFlag):
+    """client capability flags, from the MySQL protocol documentation — deliberately NOT imported from the code under test:
+    the reference client must keep speaking the real protocol if the server's own table changes"""
+    CLIENT_LONG_PASSWORD = 1 << 0
+    CLIENT_FOUND_ROWS = 1 << 1
+    CLIENT_LONG_FLAG = 1 << 2
+    CLIENT_CONNECT_WITH_DB = 1 << 3
+    CLIENT_NO_SCHEMA = 1 << 4
+    CLIENT_COMPRESS = 1 << 5
+    CLIENT_ODBC = 1 << 6
+    CLIENT_LOCAL_FILES = 1 << 7
+    CLIENT_IGNORE_SPACE = 1 << 8
+    CLIENT_PROTOCOL_41 = 1 << 9
+    CLIENT_INTERACTIVE = 1 << 10
+    CLIENT_SSL = 1 << 11
+    CLIENT_IGNORE_SIGPIPE = 1 << 12
+    CLIENT_TRANSACTIONS = 1 << 13
+    CLIENT_RESERVED = 1 << 14
+    CLIENT_SECURE_CONNECTION = 1 << 15
+    CLIENT_MULTI_STATEMENTS = 1 << 16
+    CLIENT_MULTI_RESULTS = 1 << 17
+    CLIENT_PS_MULTI_RESULTS = 1 << 18
+    CLIENT_PLUGIN_AUTH = 1 << 19
+    CLIENT_CONNECT_ATTRS = 1 << 20
+    CLIENT_PLUGIN_AUTH_LENENC_CLIENT_DATA = 1 << 21
+    CLIENT_CAN_HANDLE_EXPIRED_PASSWORDS = 1 << 22
+    CLIENT_SESSION_TRACK = 1 << 23
+    CLIENT_DEPRECATE_EOF = 1 << 24
+    CLIENT_OPTIONAL_RESULTSET_METADATA = 1 << 25
+    CLIENT_ZSTD_COMPRESSION_ALGORITHM = 1 << 26
+    CLIENT_QUERY_ATTRIBUTES = 1 << 27
+    MULTI_FACTOR_AUTHENTICATION = 1 << 28
+    CLIENT_CAPABILITY_EXTENSION = 1 << 29
+    CLIENT_SSL_VERIFY_SERVER_CERT = 1 << 30
+    CLIENT_REMEMBER_OPTIONS = 1 << 31
 
 BASE = C.CLIENT_PROTOCOL_41 | C.CLIENT_SECURE_CONNECTION | C.CLIENT_PLUGIN_AUTH
 M = 0xFFFFFF
